@@ -143,6 +143,19 @@ func isSigned(t types.Type) bool {
 	return false
 }
 
+// floatWidth is 32 or 64 for floating-point types and 0 otherwise.
+func floatWidth(t types.Type) int {
+	if b, ok := under(t).(*types.Basic); ok {
+		switch b.Kind() {
+		case types.Float32:
+			return 32
+		case types.Float64, types.UntypedFloat:
+			return 64
+		}
+	}
+	return 0
+}
+
 func intWidth(t types.Type) int {
 	if b, ok := under(t).(*types.Basic); ok {
 		return basicWidth(b)
@@ -168,6 +181,9 @@ func (ex *Exec) zeroLeaves(t types.Type, out []Value) []Value {
 			return append(out, &StrVal{})
 		}
 		w := basicWidth(u)
+		if fw := floatWidth(u); fw > 0 {
+			w = fw
+		}
 		if w < 0 {
 			if u.Kind() == types.UnsafePointer {
 				return append(out, &PtrVal{})
